@@ -18,8 +18,8 @@ RULE = (
     "cases = subtomogram-id sequence (every ordered selection of 1..4 ids from a non-sequential palette of both "
     "parities; thorough also 5 ids and 300 rows) x configuration (index kind | writer x history x update_coord x "
     "reset_index x loader | column order x token format x loader); every cell of the list holds a palette value that "
-    "encodes (row, field), so any swap of fields or rows is visible.  Non-trivial = the list has ids of both parities "
-    "or more than one row, or a non-default index / update_coord / reset_index is involved.  Distinct = distinct case "
+    "encodes (row, field), so any swap of fields or rows is visible.  Non-trivial = more than one row, or a non-default "
+    "index / permuted column order / update_coord / reset_index / non-plain input or token style is involved.  Distinct = distinct case "
     "descriptions; outcome = digest of what the library produced (frame values / file bytes)."
 )
 BOUNDS = {
@@ -35,7 +35,7 @@ ASSUMPTIONS = [
     "update_coord=True is judged as C05 states it: x,y,z integral, |shift| <= 0.5, x+shift preserved; the direction of half-integer ties is not judged",
     "column order of the exported STOPGAP table, the six non-shared fields and the halfset of imported lists are not pinned by the statement and not judged",
 ]
-BUDGET_S = {"quick": 300, "thorough": 2400}
+BUDGET_S = {"quick": 400, "thorough": 3000}
 
 EPS = float(np.finfo(np.float64).eps)
 
